@@ -8,7 +8,9 @@ import (
 	"runtime"
 	"runtime/debug"
 	"strings"
+	"sync/atomic"
 	"syscall"
+	"time"
 )
 
 // Plan is the complete description of one simulated run: every choice the
@@ -112,6 +114,23 @@ func (r *Run) finish(idx int) *Result {
 	res.Events = r.Log.Events
 	res.LogHash = r.Log.Hash()
 	return res
+}
+
+// tick journals progress ("@@T") to stderr at most five times a second. The
+// controller's CPU budget counts from the last journal line, so a long but
+// progressing plan is never mistaken for a hang, while a single library call
+// that never returns still is. Safe to call from any goroutine.
+var lastTick atomic.Int64
+
+func tick() {
+	now := time.Now().UnixNano()
+	last := lastTick.Load()
+	if now-last < int64(200*time.Millisecond) {
+		return
+	}
+	if lastTick.CompareAndSwap(last, now) {
+		os.Stderr.WriteString("@@T\n")
+	}
 }
 
 // Property is one claimed property's simulation.
